@@ -105,6 +105,20 @@ def alpha_equal(stmts_a, stmts_b, fixed=None):
     def eq(x, y):
         if type(x) is not type(y):
             return False
+        if isinstance(x, ast.Name) and isinstance(x.ctx, ast.Store) and isinstance(y.ctx, ast.Store) and x.id not in fixed and y.id not in fixed.values():
+            # a (re)binding starts a new version of the name on both sides: `g = f(g)` mirrors `h = f(g0)`
+            old_y, old_x = fwd.pop(x.id, None), bwd.pop(y.id, None)
+            if old_y is not None:
+                bwd.pop(old_y, None)
+            if old_x is not None:
+                fwd.pop(old_x, None)
+            fwd[x.id] = y.id
+            bwd[y.id] = x.id
+            return True
+        if isinstance(x, ast.Assign):
+            return eq(x.value, y.value) and eq(x.targets, y.targets)
+        if isinstance(x, ast.For):
+            return eq(x.iter, y.iter) and eq(x.target, y.target) and eq(x.body, y.body) and eq(x.orelse, y.orelse)
         if isinstance(x, ast.Name):
             if x.id in fwd:
                 return fwd[x.id] == y.id
